@@ -27,9 +27,11 @@ type ssoCase struct {
 	Relay   string
 	HasRel  bool
 	Labels  []string
-	Lenient bool
-	Others  []*spsim.SPDesc // further registered SPs
-	Host    string          // non-empty: host-derived issuer, request sent with this Host header
+	// AlsoRegister: documents offered to the registration besides the service provider's own (a refusal is fine)
+	AlsoRegister []string
+	Lenient      bool
+	Others       []*spsim.SPDesc // further registered SPs
+	Host         string          // non-empty: host-derived issuer, request sent with this Host header
 
 	XML      string
 	Send     ssoSend
@@ -234,6 +236,9 @@ func (c *ssoCase) run(rng *rand.Rand, mod func(e *env.Env)) (*env.Env, *env.Call
 	mustRegister(e.W, c.SPD, "app-"+c.SPD.EntityID)
 	for k, o := range c.Others {
 		mustRegister(e.W, o, fmt.Sprintf("app-other-%d", k))
+	}
+	for k, doc := range c.AlsoRegister {
+		_, _ = e.W.AddSP(fmt.Sprintf("app-also-%d", k), []byte(doc))
 	}
 	if mod != nil {
 		mod(e)
@@ -441,6 +446,18 @@ var c06Deviations = []deviation{
 			}
 			return `<?xml version="1.0" encoding="` + enc + `"?>` + x
 		}
+	}},
+	{"issuer_is_another_entity_of_a_metadata_aggregate", func(rng *rand.Rand, c *ssoCase) {
+		// the service provider's metadata was (also) offered for registration inside an aggregate that lists a partner
+		// identity provider behind it; whatever the registration made of that, the partner is no service provider
+		partner := "https://partner-idp-" + randHex(rng, 3) + ".example/metadata"
+		if n := issuerNode(c); n != nil {
+			n.Text = partner
+		}
+		c.SPD.AuthnRequestsSigned, c.Want, c.Signed = "", "", false
+		spDoc := strings.TrimSpace(strings.TrimPrefix(strings.TrimSpace(string(c.SPD.XML())), `<?xml version="1.0" encoding="UTF-8"?>`))
+		idpDoc := `<md:EntityDescriptor xmlns:md="` + spsim.NSMD + `" entityID="` + partner + `"><md:IDPSSODescriptor protocolSupportEnumeration="` + spsim.NSP + `"><md:SingleSignOnService Binding="` + spsim.BindRedirect + `" Location="https://partner-idp.example/sso"/></md:IDPSSODescriptor></md:EntityDescriptor>`
+		c.AlsoRegister = append(c.AlsoRegister, `<md:EntitiesDescriptor xmlns:md="`+spsim.NSMD+`">`+spDoc+idpDoc+`</md:EntitiesDescriptor>`)
 	}},
 	{"wrong_root", func(rng *rand.Rand, c *ssoCase) {
 		if c.Node == nil {
